@@ -37,6 +37,9 @@ def run(rep, tier):
     F = Facts("default")
     earcut_layout(rep, F)
     monopoly_position(rep, F)
+    # every exact predicate this property rests on is a sign of the orientation kernel (rules shared with C03)
+    from . import c03 as _c03
+    _c03.kernel_rules(rep, F, "R10.12")
     stitch_fold(rep, F)
     parent_test(rep, F)
     builder_roles(rep, F)
